@@ -1131,6 +1131,9 @@ fn run_part2(
                 if got {
                     out.stat("relationship_holds");
                 }
+                if q.rel == "containedBy" && q.target.as_deref() == Some("t") && rrecs.len() == 3 && rrecs[0].tags.len() == 3 {
+                    out.stat(&format!("first_tag_wins:subject{}={}", q.subject, got as u8));
+                }
                 if q.target.is_some() && lr.get(&q.rel).map_or(false, |t| t.get("transitive") == Some(&XTag::Marker)) {
                     out.stat("relationship_transitive_with_target");
                 }
@@ -1459,6 +1462,41 @@ pub fn generate(ctx: &mut Ctx) {
             })
             .collect(),
     ];
+    // OBSERVATION (outside every property's statement, recorded in DESIGN 9.6): the walk of a transitive relationship
+    // follows the FIRST tag whose Ref can be resolved and never comes back for the other tags of the record it left.
+    // `s = {id:@s, aRef:@a, bRef:@t}`, `a = {id:@a}`, `containedBy` transitive, both ref tags declare it:
+    // `containedBy? @t` is false although `bRef` holds @t itself - and true once `aRef` is taken away.
+    {
+        let some = |s: &str| Some(s.to_string());
+        let mut cb = RowSpec::plain("containedBy", vec![some("relationship")]);
+        cb.extra = vec![("transitive".into(), ExtraV::Marker)];
+        let mut a_ref = RowSpec::plain("aRef", vec![]);
+        a_ref.extra = vec![("containedBy".into(), ExtraV::sym("x"))];
+        let mut b_ref = RowSpec::plain("bRef", vec![]);
+        b_ref.extra = vec![("containedBy".into(), ExtraV::sym("x"))];
+        let rows = vec![RowSpec::plain("relationship", vec![]), RowSpec::plain("x", vec![]), cb, a_ref, b_ref];
+        let recs = vec![
+            RelRec { key: some("s"), tags: vec![("aRef".into(), some("a")), ("bRef".into(), some("t")), ("id".into(), some("s"))] },
+            RelRec { key: some("a"), tags: vec![("id".into(), some("a"))] },
+            RelRec { key: some("s2"), tags: vec![("bRef".into(), some("t")), ("id".into(), some("s2"))] },
+        ];
+        let qs = vec![
+            RelQuery { subject: 0, rel: "containedBy".into(), term: None, target: some("t") },
+            RelQuery { subject: 2, rel: "containedBy".into(), term: None, target: some("t") },
+            RelQuery { subject: 0, rel: "containedBy".into(), term: some("x"), target: some("a") },
+        ];
+        let mut t = vec!["g".to_string()];
+        write_rows(&rows, &mut t);
+        t.push("q".into());
+        write_names(&["containedBy".to_string()], &mut t);
+        t.push("r".into());
+        write_recs(&[], &mut t);
+        t.push("b".into());
+        write_names(&[], &mut t);
+        t.push("x".into());
+        write_rel(&recs, &qs, &mut t);
+        ctx.case("rel:first_tag_wins", &t.join(" "));
+    }
     for (i, rows) in fixed.iter().enumerate() {
         emit_graph_case(ctx, &mut rng, &format!("fixed:{i}"), rows);
     }
